@@ -100,12 +100,6 @@ impl<T: FromMeta> FromMeta for SpannedValue<T> {
         Ok(Self::new(value, span))
     }
 
-    fn from_nested_meta(item: &crate::ast::NestedMeta) -> Result<Self> {
-        T::from_nested_meta(item)
-            .map(|value| Self::new(value, item.span()))
-            .map_err(|e| e.with_span(item))
-    }
-
     fn from_value(literal: &syn::Lit) -> Result<Self> {
         T::from_value(literal)
             .map(|value| Self::new(value, literal.span()))
